@@ -48,7 +48,7 @@ def rnd_id(rng, w):
 def rnd_cfg(rng, crc=None, large=None):
     idw, seqw = rng.choice([1, 2, 4, 8]), rng.choice([1, 2, 4, 8])
     return {"crc": rng.randrange(2) if crc is None else crc, "large": rng.randrange(2) if large is None else large,
-            "mode": rng.randrange(2), "segctrl": 0, "dir": rng.randrange(2), "src": rnd_id(rng, idw),
+            "mode": rng.randrange(2), "segctrl": int(rng.random() < 0.3), "dir": rng.randrange(2), "src": rnd_id(rng, idw),
             "dst": rnd_id(rng, idw), "seq": rnd_id(rng, seqw)}
 
 
